@@ -159,7 +159,7 @@ impl Polyhedron {
                 let p2 = segment * profile_len + ((p + 1) % profile_len);
                 let p3 = segment * profile_len + p;
                 faces.push(Indices::from_indices(vec![
-                    p0 as u64, p1 as u64, p2 as u64, p3 as u64,
+                    p0 as u64, p3 as u64, p2 as u64, p1 as u64,
                 ]));
             }
         }
@@ -174,7 +174,7 @@ impl Polyhedron {
                 let p2 = segments * profile_len + ((p + 1) % profile_len);
                 let p3 = segments * profile_len + p;
                 faces.push(Indices::from_indices(vec![
-                    p0 as u64, p1 as u64, p2 as u64, p3 as u64,
+                    p0 as u64, p3 as u64, p2 as u64, p1 as u64,
                 ]));
             }
             let nml = Pt3::new(0.0, -1.0, 0.0).rotated_z(degrees + 180.0);
@@ -193,7 +193,7 @@ impl Polyhedron {
                 let p2 = (p + 1) % profile_len;
                 let p3 = p;
                 faces.push(Indices::from_indices(vec![
-                    p0 as u64, p1 as u64, p2 as u64, p3 as u64,
+                    p0 as u64, p3 as u64, p2 as u64, p1 as u64,
                 ]));
             }
         }
